@@ -110,7 +110,8 @@ def nego_lit(items):
         if len(it) == 1:
             out.append("(%s, None)" % slit(it[0]))
         else:
-            out.append("(%s, Some (Some %s))" % (slit(it[0]), slit(str(it[1]))))
+            out.append("(%s, Some (Some %s))" % (slit(it[0]),
+                                                  slit(str(it[1]))))
     return clist(out)
 
 
@@ -345,6 +346,22 @@ def run(ctx):
         if got != want:
             ctx.violation("range-roundtrip", {
                 "text": text[:300], "got": repr(got)[:300]})
+        small = all(x is None or x < 10 ** 200 for r in rs for x in r)
+        if rs and small and "=" not in units and rng.random() < 0.3:
+            # RFC 9110 list syntax: blanks around ',' and leading zeros
+            sep = rng.choice([", ", " ,", " , ", ",\t", ",,", ", ,"])
+            pad = rng.choice(["", "0", "000"])
+            text = units + "=" + sep.join(
+                ("" if a is None else pad + str(a)) + "-" +
+                ("" if b is None else pad + str(b)) for a, b in rs)
+            got = outcome(H.parse_range, text)
+            ctx.count("range:valid with OWS / zeros")
+            ctx.case(("range", text[:300]), True)
+            cases.append(("run_parse_range %s" % slit(text), got,
+                          ("parse_range", text[:200])))
+            if got != want:
+                ctx.violation("range-roundtrip-ows", {
+                    "text": text[:300], "got": repr(got)[:300]})
     malformed = list(RANGE_MALFORMED)
     for _ in range(400 if quick else 6000):
         kind = rng.random()
@@ -475,6 +492,14 @@ def run(ctx):
             if hdr["Accept"] != H.Headers.iso88591(text):
                 ctx.violation("negotiation-add_header", {
                     "items": repr(items), "stored": hdr["Accept"]})
+        # the empty list: written as '' which reads as one nameless item
+        # (recorded, not judged: the quantifier's lists have items)
+        empty = outcome(H.parse_negotiation, H.render_negotiation([]))
+        ctx.count("nego:empty list")
+        if empty != []:
+            ctx.notes.append(
+                "parse_negotiation(render_negotiation([])) = %r, not []; "
+                "see C18_negotiation_roundtrip_empty_refuted" % (empty,))
         texts = [H.render_negotiation(items) for items in lists]
         texts += NEGO_MALFORMED
         for _ in range(400 if quick else 6000):
